@@ -1009,5 +1009,16 @@ def r9_named_value(a, tier):
     return rep
 
 
+def r10_generated_frames(a, tier):
+    """the context managers only generated parsers use (group, skipgroup ...) treat the cut flag like the model constructs"""
+    from . import c05
+    rep = c05.r3_frame_classification(a, tier)
+    rep.rule = 'C02.R10'
+    for f in rep.findings:
+        f.rule = 'C02.R10'
+    rep.text = '[= C05.R3] ' + rep.text
+    return rep
+
+
 RULES = [r1_exhaustive, r2_primitives, r3_rule_transfer, r4_emission, r5_context_free_emission, r6_leaf_literals, r7_generated_configuration,
-         r8_operand_correspondence, r9_named_value]
+         r8_operand_correspondence, r9_named_value, r10_generated_frames]
